@@ -1527,9 +1527,9 @@ where
                                 }
                                 ExtendedProtocolData::Bind { data, metadata } => {
                                     // This is using a prepared statement
-                                    if let Some(client_given_name) = metadata {
+                                    if let Some(statement) = metadata {
                                         self.ensure_prepared_statement_is_on_server(
-                                            client_given_name,
+                                            statement,
                                             &pool,
                                             server,
                                             &address,
@@ -1541,9 +1541,9 @@ where
                                 }
                                 ExtendedProtocolData::Describe { data, metadata } => {
                                     // This is using a prepared statement
-                                    if let Some(client_given_name) = metadata {
+                                    if let Some(statement) = metadata {
                                         self.ensure_prepared_statement_is_on_server(
-                                            client_given_name,
+                                            statement,
                                             &pool,
                                             server,
                                             &address,
@@ -1820,41 +1820,33 @@ where
     /// Makes sure the the checked out server has the prepared statement and sends it to the server if it doesn't
     async fn ensure_prepared_statement_is_on_server(
         &mut self,
-        client_name: String,
+        statement: PreparedStatementRef,
         pool: &ConnectionPool,
         server: &mut Server,
         address: &Address,
     ) -> Result<(), Error> {
-        match self.prepared_statements.get(&client_name) {
-            Some((parse, hash)) => {
-                debug!("Prepared statement `{}` found in cache", client_name);
-                // In this case we want to send the parse message to the server
-                // since pgcat is initiating the prepared statement on this specific server
-                match self
-                    .register_parse_to_server_cache(true, hash, parse, pool, server, address)
-                    .await
-                {
-                    Ok(_) => (),
-                    Err(err) => match err {
-                        Error::PreparedStatementError => {
-                            debug!("Removed {} from client cache", client_name);
-                            self.prepared_statements.remove(&client_name);
-                        }
-
-                        _ => {
-                            return Err(err);
-                        }
-                    },
+        // The statement is the one the name stood for when the Bind / Describe arrived: a Close
+        // or Parse later in the same batch may have changed the client's map since.
+        let (client_name, parse, hash) = statement;
+        debug!("Prepared statement `{}` found in cache", client_name);
+        // In this case we want to send the parse message to the server
+        // since pgcat is initiating the prepared statement on this specific server
+        match self
+            .register_parse_to_server_cache(true, &hash, &parse, pool, server, address)
+            .await
+        {
+            Ok(_) => (),
+            Err(err) => match err {
+                Error::PreparedStatementError => {
+                    debug!("Removed {} from client cache", client_name);
+                    self.prepared_statements.remove(&client_name);
                 }
-            }
 
-            None => {
-                return Err(Error::ClientError(format!(
-                    "prepared statement `{}` not found",
-                    client_name
-                )))
-            }
-        };
+                _ => {
+                    return Err(err);
+                }
+            },
+        }
 
         Ok(())
     }
@@ -1953,7 +1945,8 @@ where
         let client_given_name = Bind::get_name(&message)?;
 
         match self.prepared_statements.get(&client_given_name) {
-            Some((rewritten_parse, _)) => {
+            Some((rewritten_parse, hash)) => {
+                let (rewritten_parse, hash) = (rewritten_parse.clone(), *hash);
                 let message = Bind::rename(message, &rewritten_parse.name)?;
 
                 debug!(
@@ -1962,7 +1955,10 @@ where
                 );
 
                 self.extended_protocol_data_buffer.push_back(
-                    ExtendedProtocolData::create_new_bind(message, Some(client_given_name)),
+                    ExtendedProtocolData::create_new_bind(
+                        message,
+                        Some((client_given_name, rewritten_parse, hash)),
+                    ),
                 );
 
                 Ok(())
@@ -2014,7 +2010,8 @@ where
         let client_given_name = describe.statement_name.clone();
 
         match self.prepared_statements.get(&client_given_name) {
-            Some((rewritten_parse, _)) => {
+            Some((rewritten_parse, hash)) => {
+                let (rewritten_parse, hash) = (rewritten_parse.clone(), *hash);
                 let describe = describe.rename(&rewritten_parse.name);
 
                 debug!(
@@ -2025,7 +2022,7 @@ where
                 self.extended_protocol_data_buffer.push_back(
                     ExtendedProtocolData::create_new_describe(
                         describe.try_into()?,
-                        Some(client_given_name),
+                        Some((client_given_name, rewritten_parse, hash)),
                     ),
                 );
 
